@@ -110,11 +110,14 @@ func (o *vectorOperator) initOutputs(ctx context.Context) error {
 	}()
 
 	lowCardSide, err := o.rhs.Series(ctx)
+	// Always wait for the other side, so that it is not left behind
+	// loading series (and holding a querier) after an error on this side.
+	lhsErr := <-errChan
 	if err != nil {
 		return err
 	}
-	if err := <-errChan; err != nil {
-		return err
+	if lhsErr != nil {
+		return lhsErr
 	}
 
 	o.lhSampleIDs = highCardSide
